@@ -14,4 +14,18 @@ def get(prop):
         mod = importlib.import_module('vstat.rules.' + prop.lower())
     except ModuleNotFoundError:
         raise AnalysisError('rule set for {} is not armed'.format(prop))
-    return mod.run
+    return with_state_lint(prop, mod.run)
+
+
+ANCHOR_FILES = {'C01': ['vermouth/processors/do_mapping.py', 'vermouth/map_parser.py', 'vermouth/molecule.py', 'vermouth/graph_utils.py'], 'C02': ['vermouth/gmx/itp.py', 'vermouth/molecule.py'], 'C03': ['vermouth/pdb/pdb.py', 'vermouth/gmx/itp.py', 'vermouth/gmx/topology.py', 'vermouth/gmx/gro.py', 'vermouth/processors/name_moltype.py', 'vermouth/processors/sort_molecule_atoms.py', 'vermouth/molecule.py'], 'C04': ['vermouth/processors/repair_graph.py', 'vermouth/ismags.py', 'vermouth/graph_utils.py', 'vermouth/processors/annotate_mut_mod.py'], 'C05': ['vermouth/processors/do_links.py', 'vermouth/molecule.py', 'vermouth/ffinput.py'], 'C06': ['vermouth/ismags.py', 'vermouth/graph_utils.py'], 'C07': ['vermouth/file_writer.py', 'bin/martinize2', 'vermouth/log_helpers.py', 'vermouth/gmx/topology.py', 'vermouth/pdb/pdb.py', 'vermouth/gmx/gro.py', 'vermouth/dssp/dssp.py', 'vermouth/rcsu/contact_map.py'], 'C08': ['vermouth/log_helpers.py', 'bin/martinize2'], 'C09': ['vermouth/processors/average_beads.py', 'vermouth/processors/do_mapping.py'], 'C10': ['vermouth/processors/make_bonds.py', 'vermouth/graph_utils.py'], 'C11': ['bin/martinize2', 'vermouth/processors/make_bonds.py', 'vermouth/processors/repair_graph.py', 'vermouth/processors/canonicalize_modifications.py', 'vermouth/processors/do_mapping.py', 'vermouth/processors/do_links.py', 'vermouth/processors/apply_rubber_band.py', 'vermouth/processors/sort_molecule_atoms.py', 'vermouth/pdb/pdb.py'], 'C12': ['vermouth/molecule.py', 'vermouth/system.py', 'vermouth/processors/merge_chains.py', 'vermouth/processors/merge_all_molecules.py', 'vermouth/edge_tuning.py'], 'C13': ['vermouth/ffinput.py', 'vermouth/parser_utils.py', 'vermouth/gmx/itp_read.py', 'vermouth/map_input.py', 'vermouth/map_parser.py', 'vermouth/forcefield.py'], 'C14': ['vermouth/processors/canonicalize_modifications.py', 'vermouth/processors/repair_graph.py', 'vermouth/ffinput.py'], 'C15': ['vermouth/processors/apply_rubber_band.py', 'vermouth/graph_utils.py', 'vermouth/selectors.py'], 'C16': ['vermouth/pdb/pdb.py', 'vermouth/gmx/gro.py', 'vermouth/truncating_formatter.py', 'vermouth/processors/pdb_reader.py', 'vermouth/processors/gro_reader.py'], 'C17': ['vermouth/dssp/dssp.py', 'vermouth/molecule.py', 'vermouth/graph_utils.py', 'vermouth/selectors.py'], 'C18': ['vermouth/rcsu/go_vs_includes.py', 'vermouth/rcsu/go_structure_bias.py', 'vermouth/rcsu/go_utils.py', 'vermouth/rcsu/contact_map.py', 'vermouth/rcsu/go_pipeline.py', 'vermouth/gmx/topology.py'], 'C19': ['vermouth/processors/annotate_mut_mod.py', 'vermouth/processors/repair_graph.py', 'vermouth/graph_utils.py', 'bin/martinize2']}
+
+
+def with_state_lint(prop, run):
+    """Every property also runs the state lint over the files it is anchored in."""
+    def wrapped(check):
+        run(check)
+        from . import shared
+        rels = [f for f in ANCHOR_FILES.get(prop, []) if f in check.index.modules]
+        if rels:
+            shared.no_new_state(check, rels)
+    return wrapped
